@@ -56,13 +56,23 @@ var (
 	c12Once sync.Once
 	c12URL  string
 	c12Root string
+	c12Base string // what the server was given as its base directory: "served", relative to c12Cwd
+	c12Cwd  string
 	c12Err  string
 )
 
 func c12Server(c *fw.Ctx) (string, string) {
 	c12Once.Do(func() {
+		// set once, before the first request: the transport's own goroutines read it without synchronisation
+		http.DefaultTransport.(*http.Transport).MaxIdleConnsPerHost = 4
 		c12Root = filepath.Join(c.Dir, "served")
 		os.MkdirAll(c12Root, 0755)
+		// the server is given a RELATIVE base directory (the tool's default is the relative "."): requests then
+		// depend on the process's working directory, which C17 resets before every execution
+		c12Base = c12Root
+		if os.Chdir(c.Dir) == nil {
+			c12Cwd, c12Base = c.Dir, "served"
+		}
 		ln, err := net.Listen("tcp", "127.0.0.1:0")
 		if err != nil {
 			c12Err = "no loopback port: " + err.Error()
@@ -71,7 +81,7 @@ func c12Server(c *fw.Ctx) (string, string) {
 		addr := ln.Addr().String()
 		ln.Close()
 		go func() {
-			err := (&wcmd.ServerCommand{Addr: addr, BaseDir: c12Root}).Execute()
+			err := (&wcmd.ServerCommand{Addr: addr, BaseDir: c12Base}).Execute()
 			c12Err = fmt.Sprint("server ended: ", err)
 		}()
 		c12URL = "http://" + addr
@@ -96,7 +106,9 @@ func c12Server(c *fw.Ctx) (string, string) {
 		c12Err = "server did not start listening on " + addr
 		c12URL = ""
 	})
-	http.DefaultTransport.(*http.Transport).MaxIdleConnsPerHost = 4
+	if c12Cwd != "" {
+		os.Chdir(c12Cwd) // code under test that left the working directory changed must not spoil the next evaluation
+	}
 	return c12URL, c12Root
 }
 
